@@ -46,7 +46,7 @@ def lazy_for(case, share=6):
 def evaluate_with_modes(inner):
     """Wraps a check's evaluate(ctx, case): a fixed share of the cases runs with oslo_i18n lazy translation enabled."""
     def evaluate(ctx, case):
-        if isinstance(case, dict) and lazy_for(case):
+        if isinstance(case, dict) and lazy_for(case) and not MODES_OFF[0]:
             ctx.clause('under-lazy-translation')
             with lazy_i18n():
                 return inner(ctx, case)
@@ -120,6 +120,9 @@ def int_max_str_digits(n):
         sys.set_int_max_str_digits(old)
 
 
+MODES_OFF = [False]      # set while several threads evaluate cases at once: the modes below change process-wide settings
+
+
 def with_modes(inner, lazy=None, warn=None, share_lazy=6, share_warn=5):
     """Wraps a check's evaluate(ctx, case).  lazy / warn: predicates over cases (or None) saying for which cases the mode
     is sound on the pinned tree; a fixed, replay-stable share of those cases then runs under oslo_i18n lazy translation /
@@ -136,7 +139,7 @@ def with_modes(inner, lazy=None, warn=None, share_lazy=6, share_warn=5):
             return 1
 
     def evaluate(ctx, case):
-        if not isinstance(case, dict):
+        if not isinstance(case, dict) or MODES_OFF[0]:
             return inner(ctx, case)
         use_lazy = lazy is not None and lazy(case) and digest(case, 'lazy') % share_lazy == 0
         use_warn = warn is not None and warn(case) and digest(case, 'warn') % share_warn == 0
